@@ -798,6 +798,16 @@ def rebuild(ptype, *fields):
     return out
 
 
+def raw_fields(payload, n):
+    """the first n length-prefixed fields of payload[1:] as RAW byte strings, and the rest"""
+    pos, out = 1, []
+    for _ in range(n):
+        (ln,) = struct.unpack(">I", payload[pos:pos + 4])
+        out.append(payload[pos + 4:pos + 4 + ln])
+        pos += 4 + ln
+    return out, payload[pos:]
+
+
 def split_fields(payload, kinds):
     """parse payload[1:] as a sequence of 's' / 'm' / 'u' fields (independent of paramiko)"""
     pos, out = 1, []
